@@ -293,3 +293,31 @@ func cmdGen(f []string) string {
 	}
 	return fmt.Sprintf("%s stable=%v states=%d checked=%d problems=%s", res, stable, len(d.States()), checked, strings.Join(hp, ","))
 }
+
+func init() { commands["emit"] = cmdEmit }
+
+// emit <hex spec text> <hex existing directory>: golang.Generate into the directory; prints the package name and the
+// automaton and terminal map of Spec.DFA() (the tables the emitted lexer encodes).
+func cmdEmit(f []string) string {
+	s, err := spec.Parse("f", strings.NewReader(unhx(f[0])))
+	if err != nil || s == nil {
+		return "PARSEERR"
+	}
+	d, tm, derr := s.DFA()
+	if derr != nil {
+		return "DFAERR " + errLines(derr)
+	}
+	if err := golang.Generate(ui.NewNop(), &golang.Params{Path: unhx(f[1]), Spec: s}); err != nil {
+		return "GENERR " + errLines(err)
+	}
+	var ts []string
+	for t, states := range tm {
+		var ss []string
+		for _, st := range states {
+			ss = append(ss, fmt.Sprint(int(st)))
+		}
+		ts = append(ts, hx(string(t))+":"+strings.Join(ss, "/"))
+	}
+	sort.Strings(ts)
+	return "OK name=" + hx(s.Name) + " term=" + strings.Join(ts, ",") + " " + dfaStr(d)
+}
